@@ -516,6 +516,13 @@ fn c14_scenarios(tier: Tier) -> Vec<Scenario> {
         opts: RetryOpts::default(),
         steps: vec![Step::Register(0), Step::Script(0, add.clone(), vec![Reply::WrongKey]), Step::Revoke(1), Step::Register(0), Step::Revoke(2), Step::Settle, Step::Restart, Step::Revoke(3), Step::Settle],
     });
+    // proven misbehaving on the retry path (the appointment is still pending next to the proof), then a restart
+    v.push(Scenario {
+        name: "misbehaving-on-retry-path-then-restart".into(),
+        towers: 1,
+        opts: RetryOpts::default(),
+        steps: vec![Step::Register(0), Step::Down(0), Step::Revoke(1), Step::Script(0, add.clone(), vec![Reply::WrongKey]), Step::Up(0), Step::Settle, Step::Restart, Step::Settle, Step::Revoke(2), Step::Settle, Step::Restart, Step::Settle],
+    });
     // registration replies
     for k in [
         Reply::WrongKey,
@@ -610,6 +617,32 @@ fn c05_scenarios(tier: Tier) -> Vec<Scenario> {
             steps: vec![Step::Register(0), Step::Register(1), Step::Script(1, add.clone(), vec![k.clone()]), Step::Revoke(1), Step::Down(1), Step::Revoke(2), Step::Up(1), Step::Revoke(3), Step::Settle, Step::Restart, Step::Settle],
         });
     }
+    // two towers holding the same commitments as pending / invalid (appointment bodies are shared between
+    // towers in the store): what one tower does must not cost the other its record
+    v.push(Scenario {
+        name: "shared-pending:one-tower-abandoned".into(),
+        towers: 2,
+        opts: RetryOpts::default(),
+        steps: vec![Step::Register(0), Step::Register(1), Step::Down(0), Step::Down(1), Step::Revoke(1), Step::Revoke(2), Step::Settle, Step::Abandon(0), Step::Settle, Step::Restart, Step::Settle],
+    });
+    v.push(Scenario {
+        name: "shared-pending-and-invalid:one-tower-abandoned".into(),
+        towers: 2,
+        opts: RetryOpts::default(),
+        steps: vec![Step::Register(0), Step::Register(1), Step::Down(0), Step::Default(1, add.clone(), Reply::Reject(36)), Step::Revoke(1), Step::Revoke(2), Step::Settle, Step::Abandon(0), Step::Settle, Step::Restart, Step::Settle],
+    });
+    v.push(Scenario {
+        name: "shared-pending:one-tower-recovers".into(),
+        towers: 2,
+        opts: RetryOpts::default(),
+        steps: vec![Step::Register(0), Step::Register(1), Step::Down(0), Step::Down(1), Step::Revoke(1), Step::Revoke(2), Step::Settle, Step::Up(0), Step::WaitDelivered(0), Step::Settle, Step::Restart, Step::Settle],
+    });
+    v.push(Scenario {
+        name: "shared-pending-and-invalid:pending-tower-recovers".into(),
+        towers: 2,
+        opts: RetryOpts::default(),
+        steps: vec![Step::Register(0), Step::Register(1), Step::Down(0), Step::Default(1, add.clone(), Reply::Reject(36)), Step::Revoke(1), Step::Settle, Step::Up(0), Step::WaitDelivered(0), Step::Settle, Step::Restart, Step::Settle],
+    });
     v.push(Scenario {
         name: "revocation-while-retrier-runs".into(),
         towers: 1,
@@ -712,6 +745,72 @@ fn c13_scenarios(_tier: Tier) -> Vec<Scenario> {
             steps: vec![Step::Register(0), Step::Down(0), Step::Revoke(1), Step::Revoke(2), Step::Script(0, add.clone(), vec![Reply::Reject(36)]), Step::Up(0), Step::WaitDelivered(0)],
         },
     ];
+    // the subscription is lost and renewing it fails for longer than the retry budget; then the tower is fine again
+    for k in [Reply::NonJson, Reply::Hangup, Reply::Html5xx] {
+        v.push(Scenario {
+            name: format!("renewal-fails-past-the-retry-budget-then-recovers:{}:no-overlap", label(&k)),
+            towers: 1,
+            opts: fast,
+            steps: vec![
+                Step::Register(0),
+                Step::Down(0),
+                Step::Revoke(1),
+                Step::LoseSubscription(0),
+                Step::Default(0, "/register".into(), k.clone()),
+                Step::Up(0),
+                Step::Sleep(3500),
+                Step::Default(0, "/register".into(), Reply::Accept),
+                Step::WaitDelivered(0),
+            ],
+        });
+    }
+    // a revocation arriving while a retry that was started from `unreachable` (manually / by the auto-retry) is in flight
+    v.push(Scenario {
+        name: "revocation-during-manual-retry-from-unreachable:no-overlap".into(),
+        towers: 1,
+        opts: RetryOpts { max_retry_time: 1, auto_retry_delay: 120, max_retry_interval: 1 },
+        steps: vec![
+            Step::Register(0),
+            Step::Down(0),
+            Step::Revoke(1),
+            Step::WaitStatus(0, "unreachable".into()),
+            Step::Script(0, add.clone(), vec![Reply::Hold]),
+            Step::Up(0),
+            Step::Retry(0),
+            Step::Sleep(400),
+            Step::Revoke(2),
+            Step::Sleep(300),
+            Step::Release(0),
+            Step::WaitDelivered(0),
+        ],
+    });
+    v.push(Scenario {
+        name: "revocation-during-auto-retry-from-unreachable:no-overlap".into(),
+        towers: 1,
+        opts: RetryOpts { max_retry_time: 1, auto_retry_delay: 2, max_retry_interval: 1 },
+        steps: vec![
+            Step::Register(0),
+            Step::Down(0),
+            Step::Revoke(1),
+            Step::WaitStatus(0, "unreachable".into()),
+            Step::Script(0, add.clone(), vec![Reply::Hold]),
+            Step::Up(0),
+            Step::Sleep(2600),
+            Step::Revoke(2),
+            Step::Sleep(300),
+            Step::Release(0),
+            Step::WaitDelivered(0),
+        ],
+    });
+    // documented error codes on the retry path (a tower that cannot reach its bitcoind answers 503 / code 32)
+    for code in [32u8, 33, 34, 35, 65] {
+        v.push(Scenario {
+            name: format!("error-code-{code}-on-retry-path:no-overlap"),
+            towers: 1,
+            opts: fast,
+            steps: vec![Step::Register(0), Step::Down(0), Step::Revoke(1), Step::Default(0, add.clone(), Reply::Reject(code)), Step::Up(0), Step::Sleep(2500), Step::Default(0, add.clone(), Reply::Accept), Step::Settle],
+        });
+    }
     // garbage on the retry path must not turn into a hot loop
     for k in [Reply::NonJson, Reply::WrongShape, Reply::Html5xx, Reply::Empty, Reply::Hangup] {
         v.push(Scenario {
